@@ -41,6 +41,8 @@ type symEntry struct {
 	Members []string `json:"members,omitempty"`
 	Index   int      `json:"index,omitempty"` // field position
 	Shape   string   `json:"shape,omitempty"` // types only: the ordered field types of a struct
+	// Closures: functions and methods only, the local variables bound to a function literal in the body
+	Closures []string `json:"closures,omitempty"`
 	// MembersBy holds the member list under a configuration where it differs from Members (build-tagged variants)
 	MembersBy map[string][]string `json:"members_by,omitempty"`
 	Configs   []string            `json:"configs,omitempty"`
@@ -64,13 +66,14 @@ func collectSymbols(pkgs map[string]*packages.Package) (symTable, map[string]typ
 			continue
 		}
 		uses := usedNames(pk)
+		lc := localClosures(pk)
 		sc := pk.Types.Scope()
 		for _, name := range sc.Names() {
 			obj := sc.Lookup(name)
 			key := path + "|" + name
 			switch o := obj.(type) {
 			case *types.Func:
-				tab[key] = &symEntry{Kind: "func", Sig: sigNoRecv(o), Members: uses[o]}
+				tab[key] = &symEntry{Kind: "func", Sig: sigNoRecv(o), Members: uses[o], Closures: lc[o]}
 				objs[key] = o
 			case *types.Var:
 				tab[key] = &symEntry{Kind: "var", Sig: types.TypeString(o.Type(), qualifier)}
@@ -116,7 +119,7 @@ func collectSymbols(pkgs map[string]*packages.Package) (symTable, map[string]typ
 					m := n.Method(i)
 					e.Members = append(e.Members, m.Name()+"()")
 					mk := path + "|" + name + "." + m.Name()
-					tab[mk] = &symEntry{Kind: "method", Owner: name, Sig: sigNoRecv(m), Members: uses[m]}
+					tab[mk] = &symEntry{Kind: "method", Owner: name, Sig: sigNoRecv(m), Members: uses[m], Closures: lc[m]}
 					objs[mk] = m
 				}
 				sort.Strings(e.Members)
@@ -149,6 +152,65 @@ func sigNoRecv(m *types.Func) string {
 // usedNames maps every function and method declared in pk to the sorted set of names of the
 // package-level objects, methods and fields its body mentions: a neighbourhood fingerprint
 // that tells same-signature candidates apart.
+// localClosures lists, per declared function, the local variables its body binds to a function literal.
+func localClosures(pk *packages.Package) map[types.Object][]string {
+	out := map[types.Object][]string{}
+	for _, f := range pk.Syntax {
+		for _, d := range f.Decls {
+			fd, ok := d.(*ast.FuncDecl)
+			if !ok || fd.Body == nil {
+				continue
+			}
+			self := pk.TypesInfo.Defs[fd.Name]
+			if self == nil {
+				continue
+			}
+			set := map[string]bool{}
+			for _, id := range closureVarIdents(fd.Body) {
+				set[id.Name] = true
+			}
+			var l []string
+			for k := range set {
+				l = append(l, k)
+			}
+			sort.Strings(l)
+			if len(l) > 0 {
+				out[self] = l
+			}
+		}
+	}
+	return out
+}
+
+// closureVarIdents: the identifiers defined by `f := func…` or `var f = func…` / `var f T = func…` under n.
+func closureVarIdents(n ast.Node) []*ast.Ident {
+	var out []*ast.Ident
+	ast.Inspect(n, func(n ast.Node) bool {
+		switch x := n.(type) {
+		case *ast.AssignStmt:
+			if x.Tok == token.DEFINE && len(x.Lhs) == len(x.Rhs) {
+				for i, l := range x.Lhs {
+					if id, ok := l.(*ast.Ident); ok && id.Name != "_" {
+						if _, ok := ast.Unparen(x.Rhs[i]).(*ast.FuncLit); ok {
+							out = append(out, id)
+						}
+					}
+				}
+			}
+		case *ast.ValueSpec:
+			if len(x.Names) == len(x.Values) {
+				for i, id := range x.Names {
+					if _, ok := ast.Unparen(x.Values[i]).(*ast.FuncLit); ok && id.Name != "_" {
+						out = append(out, id)
+					}
+				}
+			}
+		}
+		return true
+	})
+	return out
+}
+
 func usedNames(pk *packages.Package) map[types.Object][]string {
 	out := map[types.Object][]string{}
 	for _, f := range pk.Syntax {
